@@ -5,12 +5,15 @@
      H tb | cur | urls | ops            -> a history on the language server; per op output, then the reloaded
                                            dictionaries (user, then one per url)
      W tb | cur | ops                   -> a history on harper_wasm::Linter
+     S o w w s r                        -> the system calls of one real save on <name>.tmp, in order: accepted by C07Power.x_order_ok? "1" / "0"
      M tb | .w,.w | .w,.w               -> MergedDictionary::eq of [curated; dictionary of the first word list] and
                                            [curated; dictionary of the second]: "1" / "0"
    tb  = "c f l1 l2 ..", ..   (char, is_lowercase, to_lowercase)      cur = "dok c1 c2 ..", ..
    urls = "p cps" | "u cps", ..
    ops(H): "s a : c cps" / "s f i : c cps" the dictionary file is written by hand | "a : .w [: obs]" add user | "f i : .w [: obs]" add file(url i)
            (obs = the dictionary file as found afterwards, from which the iteration order of the hash map is read off) | "l i : .t,.t" lint | "r" restart
+           | "c i : .id,.id : .t,.t" check of a SOURCE document: its identifiers (create_ident_dict), the Word tokens of its comments
+           | "u i : S : .id,.id" / "u i : P" the update_document_from_file an add command makes for its (open) document: source / plain
            | "k a : .w : obs : obstmp" / "k f i : .w : obs : obstmp"  crash during the add; obs / obstmp = what was found
              on disk afterwards in the dictionary file / in its temporary sibling <name>.tmp:
              "n" (no file) | "c cps" (text) | "t cps" (text followed by a cut UTF-8 sequence)
@@ -125,7 +128,9 @@ let history tb cur urls ops =
     let parts = split ':' o in
     let hd = List.hd parts in
     let arg k = List.nth parts k in
-    let one_o order op = let ((s', c'), out) = x_run tb cur order (!st, !cache) [op] in st := s'; cache := c'; out in
+    (* the server with per-document state incl. identifier dictionaries (C07Ident.irun; C07_ident_transparent) *)
+    let one_i order iop = let ((s', c'), out) = x_irun tb cur order (!st, !cache) [iop] in st := s'; cache := c'; out in
+    let one_o order op = one_i order (IBase op) in
     let one op = one_o [] op in
     (* a completed add: the content found in the dictionary file afterwards (optional 3rd field) fixes the order *)
     let add sc w = 
@@ -137,6 +142,12 @@ let history tb cur urls ops =
     | ["l"; i] ->
         (match one (LintDoc (urls_a.(int_of_string i), words_of_field (arg 1))) with
          | [fl] -> show_flags fl | _ -> "?")
+    | ["c"; i] ->
+        (match one_i [] (LintSrc (urls_a.(int_of_string i), words_of_field (arg 1), words_of_field (arg 2))) with
+         | [fl] -> show_flags fl | _ -> "?")
+    | ["u"; i] ->
+        let ids = (match arg 1 with "S" -> Some (words_of_field (arg 2)) | _ -> None) in
+        ignore (one_i [] (IUpdate (urls_a.(int_of_string i), ids))); "u"
     | "s" :: sc ->
         (* a dictionary file written by hand *)
         let sc = (match sc with ["a"] -> SUser | ["f"; i] -> SFile urls_a.(int_of_string i) | _ -> failwith "bad scope") in
@@ -185,6 +196,10 @@ let () =
             let ops = if String.trim ops = "" then [] else split ';' ops in
             history (table tb) (curated cur) urls ops
         | 'M', [tb; a; b] -> if x_merge_eq (table tb) (words_of_field a) (words_of_field b) then "1" else "0"
+        | 'S', [t] ->
+            let sc = List.filter_map (fun x -> match x with "o" -> Some SOpen | "w" -> Some SWrite | "s" -> Some SFsync | "r" -> Some SRename | _ -> None)
+                       (String.split_on_char ' ' (String.trim t)) in
+            if x_order_ok sc then "1" else "0"
         | 'W', [tb; cur; ops] ->
             let ops = if String.trim ops = "" then [] else split ';' ops in
             wasm_history (table tb) (curated cur) ops
